@@ -28,6 +28,7 @@ PROPS = {
         "rules": [
             {"run": rules_conv.run, "floor": 300},
             {"run": rules_conv.run_erange, "floor": 5, "scope": "anchors"},
+            {"run": rules_conv.run_convboth, "floor": 8},
             {"run": rules_table.run_typemap, "floor": 120, "scope": "anchors"},
             {"run": rules_layout.run_errprop, "floor": 100, "scope": "anchors"},
             {"run": rules_layout.run_convdest, "floor": 60, "scope": "anchors"},
@@ -49,6 +50,7 @@ PROPS = {
         "rules": [
             {"run": rules_table.run_typemap, "floor": 120, "scope": "anchors"},
             {"run": rules_table.run_regrange, "floor": 6},
+            {"run": rules_table.run_countfail, "floor": 4},
             {"run": rules_path.run_lazyorder, "floor": 2, "use_anchor_files": True},
             {"run": rules_table.run_memcpysize, "floor": 3, "ctx": {"files": ["mptcore/types/type_traits.c"]}},
         ],
@@ -239,6 +241,7 @@ PROPS = {
         "level_text": "Decides the link-pairing clauses (every child names its parent after each attach; moved lists have one owner; destroy/clear guards) for every site in the build.",
         "level_note": "idiom list frozen from today's 21 sites, one reason each; anything else is reported",
         "rules": [
+            {"run": rules_node.run_childlist, "floor": 2},
             {"run": rules_lin.run_linnode, "floor": 4, "use_anchor_files": True},
             {"run": rules_node.run_childparent, "floor": 18},
             {"run": rules_node.run_destroy_guard, "floor": 4},
@@ -400,6 +403,8 @@ PROPS = {
         "level_note": "one-shot reply handlers in the stream/connection wait queues (invoked with the reply, then cleared) are outside the anchored files and reported as unattributed",
         "rules": [
             {"run": rules_reply.run_formatargs, "floor": 100, "scope": "anchors"},
+            {"run": rules_path.run_usednotsize, "floor": 20},
+            {"run": rules_event.run_defaultset, "floor": 1},
             {"run": rules_event.run_finiall, "floor": 1},
             {"run": rules_event.run_finaliser, "floor": 10, "scope": "anchors"},
             {"run": rules_reply.run_idwidth, "floor": 8},
